@@ -405,7 +405,10 @@ def snapshot(solver, rec, msg=None):
         emx=emx, emy=emy, ncalls=len(rec.cost_calls), msg=msg_kind(msg), ncb=len(rec.cb), nstep=rec.nstep,
         term_now=_term_now(solver), exitreq=bool(solver._EARLYEXIT), nsm=len(solver._stepmon),
         maxiter=_lim(solver._maxiter), maxfun=_lim(solver._maxfun), live=bool(solver._live),
-        synced=(solver._energy_history is None))
+        synced=(solver._energy_history is None),
+        # the monitors' parallel lists stay parallel (one id / info slot per record)
+        mon_shape=[len(getattr(solver._stepmon, "_x", ())), len(getattr(solver._stepmon, "_y", ())), len(getattr(solver._stepmon, "_id", ())),
+                   len(getattr(em, "_x", ())), len(getattr(em, "_y", ())), len(getattr(em, "_id", ()))])
 
 
 def _term_now(solver):
@@ -477,7 +480,10 @@ def apply_op(solver, rec, op, k, case_tag):
         st["pen_k"] = k
     elif o == "SetConstraints":
         ident = op["cons"]["kind"] == "ident" and not op["cons"].get("inplace")
-        solver.SetConstraints(None if ident else ConsFn(op["cons"], k, case_tag))
+        if op.get("defer"):
+            st["pending_cons"] = (None if ident else ConsFn(op["cons"], k, case_tag),)    # handed to the next Step as a keyword
+        else:
+            solver.SetConstraints(None if ident else ConsFn(op["cons"], k, case_tag))
         st["inplace"] = bool(op["cons"].get("inplace"))
         st["cons_k"] = k
         st["eff_k"] = k
@@ -508,7 +514,10 @@ def apply_op(solver, rec, op, k, case_tag):
     elif o == "SetStepMonitor":
         solver.SetGenerationMonitor(Monitor(), new=op["new"])
     elif o == "SetRandomInitialPoints":
-        solver.SetRandomInitialPoints(list(op["lo"]), list(op["hi"]))
+        if op["lo"] is None:
+            solver.SetRandomInitialPoints()
+        else:
+            solver.SetRandomInitialPoints(list(op["lo"]), list(op["hi"]))
         res["pop"] = [_vec(p) for p in solver.population]
     elif o == "SetInitialPoints":
         solver.SetInitialPoints(list(op["x0"]))
@@ -516,6 +525,8 @@ def apply_op(solver, rec, op, k, case_tag):
     elif o == "Step":
         kw = dict(callback=CbFn(tag)) if op.get("cb", False) else {}
         kw.update(_de_kwds(op))
+        if st.get("pending_cons") is not None:
+            kw["constraints"] = st.pop("pending_cons")[0]
         msg = solver.Step(**kw)
         res["inputs"] = [step_inputs(solver, rec)]
     elif o == "Solve":
